@@ -143,7 +143,7 @@ func (n *Notifier) RegisterFromNotifier(other *Notifier) {
 	}
 	for k, v := range productionMap {
 		if pm, ok := n.productionMap[k]; ok {
-			for k1, v1 := range pm {
+			for k1, v1 := range v {
 				pm[k1] = v1
 			}
 			n.productionMap[k] = pm
@@ -153,7 +153,7 @@ func (n *Notifier) RegisterFromNotifier(other *Notifier) {
 	}
 	for k, v := range nameMap {
 		if nm, ok := n.nameMap[k]; ok {
-			for k1, v1 := range nm {
+			for k1, v1 := range v {
 				nm[k1] = v1
 			}
 			n.nameMap[k] = nm
